@@ -8,9 +8,13 @@
    styles, identity closures and failing closures, which tableExporter.format swallows), and closure styles
    of Format: failing (SCloErr, also a panicking closure: ToHtml recovers it into an error) and
    succeeding (HFmtClo: the value the closure returns for the wrapped value is part of the case).
+   Also: nil (HNil: the text nil; a list whose first element is nil is rendered as nothing at all - the
+   dummy list exporter), lists whose iteration fails at some position (HErr: the iterator yields an error
+   instead of an element; the loops return that error before they look at the cut-off), and table-format
+   closures with one or three arguments that succeed with any value (SCloRes; the value the closure returns
+   for a cell item travels with the item: HCell).
    Not modelled (covered by the correspondence run only): custom renderers (raw HTML: by definition they
-   can inject), table-format closures other than the identity that succeed (their result is rendered
-   instead of the item), nil, ToHtmlInterface values, errors of lazy list elements. *)
+   can inject), ToHtmlInterface values, table-format closures that panic. *)
 From P2 Require Import Base.Prelude Exp.Json Exp.Xml.
 Local Open Scope N_scope.
 
@@ -20,6 +24,8 @@ Inductive sty :=
 | SMap (l : list (str * str))      (* css map: key, value as text (String / strconv.Itoa of an Int) *)
 | SCloErr                           (* a closure style with one argument whose evaluation returns an error *)
 | SCloId                            (* a closure with one argument that returns its argument *)
+| SCloRes                           (* as a table format: a closure with one or three arguments that succeeds; the
+                                       value it returns for an item is recorded at the item (HCell) *)
 | STab (css : list (str * str)) (tf : list (str * sty)).
     (* a map style with the key table: css entries as in SMap, and the table format map
        (keys rNcM, rN, cN, all; values: styles for the cells of a list of lists) *)
@@ -34,7 +40,12 @@ Inductive hval :=
 | HFmtClo (cell : bool) (colspan : N) (r : hval) (v : hval)
     (* Format whose style is a closure with one argument that succeeds: r is the value the closure returns
        for v (given with the case; the closure itself is the expression language's business) *)
-| HFile (name mime b64 size : str). (* export.File: name, MimeType, base64 of the data and the byteSize text (both Go's) *)
+| HFile (name mime b64 size : str)  (* export.File: name, MimeType, base64 of the data and the byteSize text (both Go's) *)
+| HNil                              (* the nil value *)
+| HErr                              (* as a list element: the iteration of the (lazy) list fails at this position *)
+| HCell (r : hval) (y : hval).
+    (* the item y of a table (an element of a row, or a row that is not a list) together with r, the value a
+       succeeding table-format closure (SCloRes) returns for it; everywhere else it is y *)
 
 Definition s_table : str := [116; 97; 98; 108; 101].
 Definition s_tr : str := [116; 114].
@@ -57,6 +68,7 @@ Definition file_href (mime b64 : str) : str :=
   s_data ++ (match mime with [] => s_octet | _ => mime end) ++ s_b64 ++ b64.
 Definition file_text (name size : str) : str := s_File ++ name ++ [32; 40] ++ size ++ [41].
 Definition s_Link : str := [76; 105; 110; 107].
+Definition s_nil : str := [110; 105; 108].
 Definition s_more : str := [109; 111; 114; 101; 46; 46; 46].
 Definition s_plainList : str := [112; 108; 97; 105; 110; 76; 105; 115; 116].
 Definition s_http : str := [104; 116; 116; 112; 58; 47; 47].
@@ -76,7 +88,7 @@ Definition replace_us (k : str) : str := map (fun c => if c =? 95 then 45 else c
 (* toStyleStr *)
 Definition style_str (st : sty) : option str :=
   match st with
-  | SNone | SCloErr | SCloId => None
+  | SNone | SCloErr | SCloId | SCloRes => None
   | SStr s => Some s
   | SMap l | STab l _ =>              (* the table entry is a map: not part of the style string *)
       match l with
@@ -90,7 +102,7 @@ Definition style_str (st : sty) : option str :=
 (* hasKey(style, "plainList") *)
 Definition has_plain (st : sty) : bool :=
   match st with
-  | SNone | SCloErr | SCloId => false
+  | SNone | SCloErr | SCloId | SCloRes => false
   | SStr s => str_eqb s s_plainList
   | SMap l | STab l _ => existsb (fun kv => str_eqb (fst kv) s_plainList) l
   end.
@@ -170,9 +182,12 @@ Definition bind (r : res) (k : list op -> list str -> res) : res :=
   end.
 
 Definition is_HL (v : hval) : bool := match v with HL _ => true | _ => false end.
+Definition is_nil (v : hval) : bool := match v with HNil => true | _ => false end.
+Definition is_err (v : hval) : bool := match v with HErr => true | _ => false end.
 
 (* the loops of toHtml over list elements; [td] is toTD, [each] toHtml with no style.
-   An error of an element ends the loop with that error before the cut-off flag is looked at. *)
+   An error of an element ends the loop with that error before the cut-off flag is looked at; an error of the
+   iteration itself (HErr) ends it before the element counts at all. *)
 Section Loops.
 Variable maxl : N.
 Variable td : hval -> list str -> res.
@@ -183,6 +198,7 @@ Fixpoint simple_rows (l : list hval) (i : N) (cls : list str) : res :=
   | [] => Some ([], cls)
   | x :: r =>
       let num := [OOpen s_td; OWrite (itoa i); OWrite [46]; OClose] in
+      if is_err x then None else
       if i <=? maxl then
         bind (td x cls) (fun o cls1 =>
         bind (simple_rows r (i + 1) cls1) (fun os cls2 =>
@@ -201,6 +217,7 @@ Fixpoint table_cells (row : N) (c : list hval) (col : N) (cls : list str) : res 
   match c with
   | [] => Some ([], cls)
   | y :: c' =>
+      if is_err y then None else
       if col <=? maxl then
         bind (cell row col y cls) (fun o cls1 =>
         bind (table_cells row c' (col + 1) cls1) (fun os cls2 =>
@@ -213,6 +230,7 @@ Fixpoint table_rows (l : list hval) (row : N) (cls : list str) : res :=
   match l with
   | [] => Some ([], cls)
   | x :: r =>
+      if is_err x then None else
       if row <=? maxl then
         bind (match x with
               | HL cols => table_cells row cols 1 cls
@@ -232,6 +250,7 @@ Fixpoint plain_each (l : list hval) (cls : list str) : res :=
   match l with
   | [] => Some ([], cls)
   | x :: r =>
+      if is_err x then None else
       bind (each x cls) (fun o cls1 =>
       bind (plain_each r cls1) (fun os cls2 =>
       Some (o ++ os, cls2)))
@@ -253,7 +272,9 @@ Variable maxl : N.
 Variable inline : bool.
 
 (* toTD(d), given toHtml *)
-Definition to_td_with (html : hval -> sty -> list str -> res) (d : hval) (cls : list str) : res :=
+Section TD.
+Variable html : hval -> sty -> list str -> res.
+Fixpoint to_td_with (d : hval) (cls : list str) {struct d} : res :=
   match d with
   | HFmt cell cs fst_ inner =>
       let span := if 1 <? cs then [OAttr s_colspan (itoa cs)] else [] in
@@ -268,14 +289,21 @@ Definition to_td_with (html : hval -> sty -> list str -> res) (d : hval) (cls : 
         bind (html r SNone cls) (fun o cls1 => Some (OOpen s_td :: span ++ o ++ [OClose], cls1))
       else                                   (* a closure gives no style string; it is not evaluated *)
         bind (html inner SNone cls) (fun o cls1 => Some (OOpen s_td :: span ++ o ++ [OClose], cls1))
+  | HCell _ y => to_td_with y cls            (* the recorded closure result is not part of the item *)
   | _ => bind (html d SNone cls) (fun o cls1 => Some (OOpen s_td :: o ++ [OClose], cls1))
   end.
+End TD.
 
 (* toTD(format(row, col, item)): with a format f for the cell, format returns Format{item, f, Cell: true} *)
 Definition cell_with (html : hval -> sty -> list str -> res) (tf : list (str * sty)) (row col : N)
   (y : hval) (cls : list str) : res :=
   match tf_lookup tf row col with
   | None | Some SCloId => to_td_with html y cls      (* a closure format returns its result: here the item *)
+  | Some SCloRes =>                                  (* ... here the value recorded at the item *)
+      match y with
+      | HCell r _ => to_td_with html r cls
+      | _ => to_td_with html y cls
+      end
   | Some f =>
       let '(a, cls1) := style_attr inline f cls in
       bind (html y SNone cls1) (fun o cls2 => Some (OOpen s_td :: a ++ o ++ [OClose], cls2))
@@ -297,6 +325,9 @@ Fixpoint to_html (v : hval) (st : sty) (cls : list str) {struct v} : res :=
       Some ([OOpen s_a; OAttr s_href (file_href mime b64); OAttr s_download name;
              OWrite (file_text name size); OClose], cls)
   | HS s => Some (html_string inline s st cls)
+  | HNil => Some ([OWrite s_nil], cls)               (* the style is not looked at *)
+  | HErr => None
+  | HCell _ y => to_html y st cls
   | HM l =>
       let '(a, cls0) := style_attr inline st cls in
       bind (map_rows (sort_keys (map (fun kv => (fst kv, to_td (snd kv))) l)) cls0) (fun rows clsN =>
@@ -307,6 +338,9 @@ Fixpoint to_html (v : hval) (st : sty) (cls : list str) {struct v} : res :=
         match items with
         | [] => Some ([], cls)
         | first :: _ =>
+            if is_err first then None                   (* the iteration fails before a list exporter exists *)
+            else if is_nil first then Some ([], cls)    (* createListExporter: dummy, whose add ends the loop *)
+            else
             let '(a, cls0) := style_attr inline st cls in
             bind (if is_HL first then table_rows maxl (cell_with to_html (tf_of st)) items 1 cls0   (* tableExporter *)
                   else simple_rows maxl to_td items 1 cls0)                   (* simpleListExporter *)
@@ -361,7 +395,7 @@ Definition eff_max (maxl : N) : N := if maxl <? 1 then 1 else maxl.
 (* all strings of the value (texts, keys, link targets, style strings, css keys and values) are legal XML characters *)
 Fixpoint legal_sty (st : sty) : bool :=
   match st with
-  | SNone | SCloErr | SCloId => true
+  | SNone | SCloErr | SCloId | SCloRes => true
   | SStr s => legal s
   | SMap l => forallb (fun kv => legal (fst kv) && legal (snd kv)) l
   | STab l tf => forallb (fun kv => legal (fst kv) && legal (snd kv)) l &&
@@ -377,13 +411,16 @@ Fixpoint legal_h (v : hval) : bool :=
   | HLnk l v => legal l && legal_h v
   | HFmtClo _ _ r v => legal_h r && legal_h v
   | HFile name mime b64 size => legal name && legal mime && legal b64 && legal size
+  | HNil | HErr => true
+  | HCell r y => legal_h r && legal_h y
   end.
 
 (* no plainList style anywhere: plainList writes list elements side by side, i.e. mixed content, into which
    PrettyPrint puts its line breaks and indentation *)
 Fixpoint pfree (v : hval) : bool :=
   match v with
-  | HS _ | HFloat _ | HFile _ _ _ _ => true
+  | HS _ | HFloat _ | HFile _ _ _ _ | HNil | HErr => true
+  | HCell r y => pfree r && pfree y
   | HL l => forallb pfree l
   | HM l => forallb (fun kv => pfree (snd kv)) l
   | HFmt _ _ st v => negb (has_plain st) && pfree v
@@ -392,19 +429,40 @@ Fixpoint pfree (v : hval) : bool :=
   end.
 
 (* when rendering must fail: toHtml(v, st) reaches, within the maxListSize cut-offs, a value whose style is a
-   failing closure.  [fails v st]: toHtml(v, st);  [fails_td d]: toTD(d). *)
+   failing closure, or the iteration of a list yields an error (HErr) before the loop has ended: up to and
+   including the first element past the cut-off, which the iterator has to produce before the exporter can
+   answer more...  A list whose first element is nil is not rendered at all (nothing in it is reached).
+   [fails v st]: toHtml(v, st);  [fails_td d]: toTD(d). *)
 Section Fails.
 Variable maxl : N.
 
 Inductive fails : hval -> sty -> Prop :=
 | F_here : forall v, fails v SCloErr
+| F_iter : forall st, fails HErr st
+| F_item : forall r y st, fails y st -> fails (HCell r y) st
+| F_list_iter : forall items first i st, has_plain st = false ->
+    nth_error items 0 = Some first -> is_nil first = false ->
+    nth_error items i = Some HErr -> N.of_nat i <= maxl -> fails (HL items) st
+| F_cell_iter : forall items first r cols c st, has_plain st = false ->
+    nth_error items 0 = Some first -> is_HL first = true ->
+    nth_error items r = Some (HL cols) -> N.of_nat r < maxl ->
+    nth_error cols c = Some HErr -> N.of_nat c <= maxl -> fails (HL items) st
+| F_row_res : forall items first r res y st, has_plain st = false ->
+    nth_error items 0 = Some first -> is_HL first = true ->
+    nth_error items r = Some (HCell res y) -> N.of_nat r < maxl ->
+    tf_lookup (tf_of st) (N.of_nat r + 1) 1 = Some SCloRes -> fails_td res -> fails (HL items) st
+| F_cell_res : forall items first r cols c res y st, has_plain st = false ->
+    nth_error items 0 = Some first -> is_HL first = true ->
+    nth_error items r = Some (HL cols) -> N.of_nat r < maxl ->
+    nth_error cols c = Some (HCell res y) -> N.of_nat c < maxl ->
+    tf_lookup (tf_of st) (N.of_nat r + 1) (N.of_nat c + 1) = Some SCloRes -> fails_td res -> fails (HL items) st
 | F_fmt : forall c cs f inner st, fails inner f -> fails (HFmt c cs f inner) st
 | F_lnk : forall l inner st, fails inner st -> fails (HLnk l inner) st
 | F_clo : forall c cs r inner st, fails r SNone -> fails (HFmtClo c cs r inner) st
 | F_map : forall l k e st, In (k, e) l -> fails_td e -> fails (HM l) st
 | F_plain : forall items e st, has_plain st = true -> In e items -> fails e SNone -> fails (HL items) st
 | F_list : forall items first i e st, has_plain st = false ->
-    nth_error items 0 = Some first -> is_HL first = false ->
+    nth_error items 0 = Some first -> is_HL first = false -> is_nil first = false ->
     nth_error items i = Some e -> N.of_nat i < maxl -> fails_td e -> fails (HL items) st
 | F_row : forall items first r x st, has_plain st = false ->
     nth_error items 0 = Some first -> is_HL first = true ->
@@ -413,7 +471,7 @@ Inductive fails : hval -> sty -> Prop :=
 | F_row_fmt : forall items first r x f st, has_plain st = false ->
     nth_error items 0 = Some first -> is_HL first = true ->
     nth_error items r = Some x -> N.of_nat r < maxl -> is_HL x = false ->
-    tf_lookup (tf_of st) (N.of_nat r + 1) 1 = Some f -> f <> SCloId -> fails x SNone -> fails (HL items) st
+    tf_lookup (tf_of st) (N.of_nat r + 1) 1 = Some f -> f <> SCloId -> f <> SCloRes -> fails x SNone -> fails (HL items) st
 | F_cell : forall items first r cols c y st, has_plain st = false ->
     nth_error items 0 = Some first -> is_HL first = true ->
     nth_error items r = Some (HL cols) -> N.of_nat r < maxl ->
@@ -423,7 +481,7 @@ Inductive fails : hval -> sty -> Prop :=
     nth_error items 0 = Some first -> is_HL first = true ->
     nth_error items r = Some (HL cols) -> N.of_nat r < maxl ->
     nth_error cols c = Some y -> N.of_nat c < maxl ->
-    tf_lookup (tf_of st) (N.of_nat r + 1) (N.of_nat c + 1) = Some f -> f <> SCloId -> fails y SNone -> fails (HL items) st
+    tf_lookup (tf_of st) (N.of_nat r + 1) (N.of_nat c + 1) = Some f -> f <> SCloId -> f <> SCloRes -> fails y SNone -> fails (HL items) st
 with fails_td : hval -> Prop :=
 | T_list : forall cs f inner, is_HL inner = true -> fails inner f -> fails_td (HFmt false cs f inner)
 | T_other : forall cell cs f inner, is_HL inner && negb cell = false -> fails inner SNone ->
@@ -431,7 +489,8 @@ with fails_td : hval -> Prop :=
 | T_clo_list : forall cs r inner, is_HL inner = true -> fails r SNone -> fails_td (HFmtClo false cs r inner)
 | T_clo_other : forall cell cs r inner, is_HL inner && negb cell = false -> fails inner SNone ->
     fails_td (HFmtClo cell cs r inner)
-| T_plain : forall d, (match d with HFmt _ _ _ _ | HFmtClo _ _ _ _ => false | _ => true end) = true ->
+| T_item : forall r y, fails_td y -> fails_td (HCell r y)
+| T_plain : forall d, (match d with HFmt _ _ _ _ | HFmtClo _ _ _ _ | HCell _ _ => false | _ => true end) = true ->
     fails d SNone -> fails_td d.
 
 End Fails.
